@@ -808,14 +808,24 @@ impl MemoryLoc {
                     if self.offset != 0 {
                         addr = builder.ins().iadd_imm(addr, self.offset as i64);
                     }
+                    // only the bytes of the value itself are copied. the padding up to its
+                    // stride can belong to whatever comes after it (e.g. the next struct field).
+                    //
+                    // cranelift insists that the size is a multiple of the alignment it is
+                    // told about, so if it isn't we just don't promise any alignment
+                    let size = ty.size();
+                    let align = if size % ty.align() == 0 {
+                        ty.align()
+                    } else {
+                        1
+                    };
                     builder.emit_small_memory_copy(
                         module.target_config(),
                         addr,
                         val,
-                        // this has to be stride for some reason, it can't be size
-                        ty.stride() as u64,
-                        ty.align() as u8,
-                        ty.align() as u8,
+                        size as u64,
+                        align as u8,
+                        align as u8,
                         true,
                         MemFlags::trusted(),
                     )
@@ -826,7 +836,7 @@ impl MemoryLoc {
                     let mut off = 0;
                     macro_rules! mem_cpy_loop {
                         ($width:expr) => {
-                            while (off + $width) <= (ty.stride() as i32 / $width) * $width {
+                            while (off + $width) <= ty.size() as i32 {
                                 let bytes = builder.ins().load(
                                     cranelift::codegen::ir::Type::int_with_byte_size($width)
                                         .unwrap(),
